@@ -138,7 +138,7 @@ Section CompileFacts.
 
   Lemma compile_expr_wt e c : compile_expr schema e = Ok c -> wt_or_lit c.
   Proof.
-    revert c. induction e as [l|s|b|p|a IHa|n| |op l IHl r IHr|a IHa|a IHa|a IHa|a IHa neg lo IHlo hi IHhi| ];
+    revert c. induction e as [l|s|b|p|a IHa|n| |op l IHl r IHr|a IHa|a IHa|a IHa|a IHa neg lo IHlo hi IHhi| | ];
       intros c; cbn [compile_expr]; try discriminate.
     - intros H; inversion H. right. eauto.
     - intros H; inversion H. left. reflexivity.
@@ -241,7 +241,7 @@ Section CompileFacts.
   (* constructs outside the supported subset *)
   Fixpoint outside (e : qexpr) : bool :=
     match e with
-    | QLagN _ | QFun | QNeg _ | QOther => true
+    | QLagN _ | QFun | QNeg _ | QOther | QSub => true
     | QNum _ | QStr _ | QBool _ | QIdent _ => false
     | QLag a | QNested a | QNot a => outside a
     | QBin op l r => match op with OOther => true | _ => outside l || outside r end
@@ -252,7 +252,7 @@ Section CompileFacts.
   Fixpoint unknown_signal (e : qexpr) : bool :=
     match e with
     | QIdent p => match schema p with Some _ => false | None => true end
-    | QNum _ | QStr _ | QBool _ | QLagN _ | QFun | QOther => false
+    | QNum _ | QStr _ | QBool _ | QLagN _ | QFun | QOther | QSub => false
     | QLag a | QNested a | QNot a | QNeg a => unknown_signal a
     | QBin _ l r => unknown_signal l || unknown_signal r
     | QBetween a _ lo hi => unknown_signal a || unknown_signal lo || unknown_signal hi
@@ -266,7 +266,7 @@ Section CompileFacts.
   Lemma outside_or_unknown_refused e :
     outside e = true \/ (unknown_signal e = true /\ outside e = false) -> refused (compile_expr schema e).
   Proof.
-    induction e as [l|s|b|p|a IHa|n| |op l IHl r IHr|a IHa|a IHa|a IHa|a IHa neg lo IHlo hi IHhi| ];
+    induction e as [l|s|b|p|a IHa|n| |op l IHl r IHr|a IHa|a IHa|a IHa|a IHa neg lo IHlo hi IHhi| | ];
       cbn [compile_expr outside unknown_signal]; intros H.
     all: try (destruct H as [H|[H _]]; discriminate H).
     all: try (apply refused_err).
@@ -849,3 +849,18 @@ Example ex_refused :
   bad_query ex_schema {| q_proj := [PExpr (QIdent [88])]; q_where := None; q_extra := false |} = true
   /\ bad_query ex_schema {| q_proj := [PWild]; q_where := None; q_extra := false |} = true.
 Proof. split; vm_compute; reflexivity. Qed.
+
+(* a subquery used as an operand anywhere in a condition makes the query one of the refused ones
+   (finding F29: it used to be evaluated as its position among the subqueries of the statement) *)
+Lemma subquery_operand_outside : outside QSub = true.
+Proof. reflexivity. Qed.
+
+Lemma subquery_operand_refused (schema : list Z -> option data_type) :
+  compile_expr schema QSub = Err EUnsupportedOperation /\
+  (forall op a, compile_expr schema (QBin op QSub a) = Err EUnsupportedOperation) /\
+  (forall a neg hi, (exists c, compile_expr schema a = Ok c) ->
+                    compile_expr schema (QBetween a neg QSub hi) = Err EUnsupportedOperation).
+Proof.
+  split; [reflexivity|]. split; [reflexivity|].
+  intros a neg hi [c H]. cbn [compile_expr]. rewrite H. reflexivity.
+Qed.
